@@ -6,7 +6,7 @@ import numpy as np
 from gateprops import run_gate_check, oracle_c03
 
 PROP = "C03"
-LEAN_FILES = ["QibProofs/Properties/C03.lean"]
+LEAN_FILES = ["QibProofs/Properties/C03.lean", "QibProofs/Properties/C03Tree.lean"]
 GEN = ("gates",)
 DRIVER = "drv_gate"
 LEVEL_TEXT = ("Lean 4 theorems over (a) the leaf closed forms regenerated from gates.py by the translator and (b) combinators for "
